@@ -32,25 +32,33 @@ def c02(c):
     drive("c02", ["--tier", c.tier, "--seed", c.seed, "--out", c.work, "--shards", 16 if thorough else 12])
     to = validate_traces("Trace_Verify", traces_in(c.work, "verify"), parallel=PAR)
     c.add_traces(to, keyfn=verify_key)
+    if thorough:
+        selftests(c)       # binding self-tests: corrupted traces must be rejected at the corrupted event
     c.assumptions += ["TLC and the CommunityModules Java overrides", "transcription of Algorithms 3, 16, 18 and section 3.11 into spec/*.tla",
                       "MC_Ntt (NTT product = schoolbook product) and MC_Keccak (SHAKE-256 KATs) justify the fast evaluators"]
 
 
 def replay(prop, path):
-    """Re-validate the recorded failing event(s) with TLC (specification side) and print both verdicts."""
+    """./check Cxx --replay file: re-execute the recorded call on the code as it is now (where a replayer exists for the
+    event kind: verify, compress, decompress, decode; other kinds are re-validated as recorded) and let TLC judge it again.
+    Exit 1 with a VIOLATION line if the event still does not conform, 0 if it now does."""
     d = json.load(open(path))
     pl = d.get("payload", {})
-    if "event" not in pl:
+    if "event" not in pl or pl["event"].get("ev") == "history":
         print(json.dumps(d, indent=1)[:4000])
+        print("replay: this finding is about a whole history or a model-level run; re-run ./check %s" % prop)
         return 1
+    runner.build_harness()
     work = runner.fresh_dir(os.path.join(runner.WORK, "replay"))
+    t0 = os.path.join(work, "recorded.ndjson")
+    open(t0, "w").write(json.dumps(pl["event"]) + "\n")
     t = os.path.join(work, "replay.ndjson")
-    open(t, "w").write(json.dumps(pl["event"]) + "\n")
+    drive("replay-events", ["--in", t0, "--out", t])
     module = pl.get("module") or d.get("module") or "Trace_Verify"
-    to = validate_traces(module, [t], parallel=1)
+    to = validate_traces(module, [t], parallel=1, sparse=module in ("Trace_System", "Trace_U32", "Trace_Moments"))
     for (_, idx, ev, v) in to.mismatches:
-        print("REPLAY mismatch:", v)
-    print("VIOLATION property=%s replay=%s" % (prop, path) if to.mismatches else "replay: event now conforms")
+        print("REPLAY still non-conforming:", v)
+    print("VIOLATION property=%s replay=%s" % (prop, path) if to.mismatches else "replay: the event now conforms to the specification")
     return 1 if to.mismatches else 0
 
 
@@ -519,3 +527,92 @@ def growth(c):
     drive("solve", ["--tier", c.tier, "--seed", c.seed, "--out", c.work, "--shards", 12])
     to = validate_traces("Trace_Solve", traces_in(c.work, "solve"), parallel=PAR, timeout=7200)
     c.add_traces(to, keyfn=generic_key, label="solve")
+
+
+# ------------------------------------------------------------------ binding self-tests (DESIGN.md section 9)
+
+def _selftest(c, module, trace_file, mutate, expect_index, label, sparse=False):
+    """Corrupt one recorded field of one event (or duplicate / drop an event) and demand that TLC rejects the trace at
+    exactly that event.  A self-test that does not reject is a tool error: the trace spec would not be binding."""
+    evs = runner.read_ndjson(trace_file)
+    evs2, idx = mutate(evs)
+    d = runner.fresh_dir(os.path.join(c.work, "selftest"))
+    t = os.path.join(d, "selftest.ndjson")
+    with open(t, "w") as f:
+        for e in evs2:
+            f.write(json.dumps(e) + "\n")
+    to = validate_traces(module, [t], parallel=1, sparse=sparse)
+    got = sorted({m[1] for m in to.mismatches})
+    names = [m[2].get("name") for m in to.mismatches if m[2].get("ev") == "history"]
+    ok = (idx in got) if expect_index else bool(to.mismatches)
+    c.cov.setdefault("binding_selftests", []).append({"trace_spec": module, "corruption": label, "rejected_at": got, "history": names, "ok": ok})
+    log("[selftest] %s / %s: %s (rejected at %s %s)" % (module, label, "ok" if ok else "NOT REJECTED", got, names))
+    if not ok:
+        raise runner.ToolError("binding self-test failed: %s accepted a corrupted trace (%s)" % (module, label))
+    # the corrupted trace's states do not count as coverage of the real code
+    return ok
+
+
+def _first(evs, pred):
+    for i, e in enumerate(evs):
+        if pred(e):
+            return i
+    raise runner.ToolError("self-test: no suitable event in the trace")
+
+
+def selftests(c):
+    """./check selftest : run the binding self-tests on freshly recorded traces (also part of some thorough tiers)."""
+    work = c.work
+    drive("c02", ["--tier", "quick", "--seed", c.seed, "--out", work, "--shards", 2])
+    t = traces_in(work, "verify")[0]
+
+    def flip_res(evs):
+        i = _first(evs, lambda e: e.get("res") == "true")
+        evs = [dict(e) for e in evs[: i + 1]]
+        evs[i]["res"] = "false"
+        return evs, i + 1
+    _selftest(c, "Trace_Verify", t, flip_res, True, "verdict of an accepted signature flipped")
+
+    def flip_sig_bit(evs):
+        i = _first(evs, lambda e: e.get("res") == "true")
+        evs = [dict(e) for e in evs[: i + 1]]
+        s = list(evs[i]["sig"]); s[100] ^= 4; evs[i]["sig"] = s
+        return evs, i + 1
+    _selftest(c, "Trace_Verify", t, flip_sig_bit, True, "one bit of a recorded signature flipped (recorded verdict kept)")
+    drive("c07", ["--tier", "quick", "--seed", c.seed, "--out", work, "--shards", 2, "--bulk", 100])
+    t = traces_in(work, "codec")[0]
+
+    def bump_coeff(evs):
+        i = _first(evs, lambda e: e.get("ev") == "decompress" and e.get("res") == "some")
+        evs = [dict(e) for e in evs[: i + 1]]
+        v = list(evs[i]["v"]); v[len(v) // 2] += 1; evs[i]["v"] = v
+        return evs, i + 1
+    _selftest(c, "Trace_Codec", t, bump_coeff, True, "one decompressed coefficient off by one")
+    drive("c09", ["--tier", "quick", "--seed", c.seed, "--out", work, "--shards", 8])
+    t = traces_in(work, "sampler")[0]
+
+    def bump_sample(evs):
+        i = _first(evs, lambda e: e.get("ev") == "samplerz" and not e.get("exhausted"))
+        evs = [dict(e) for e in evs[: i + 1]]
+        evs[i]["res"] += 1
+        return evs, i + 1
+    _selftest(c, "Trace_Sampler", t, bump_sample, True, "sampler_z result off by one")
+    drive("c08", ["--tier", "quick", "--seed", c.seed, "--out", work, "--per", 20])
+    t = traces_in(work, "system")[0]
+
+    def dup_salt(evs):
+        evs = [dict(e) for e in evs[:400]]
+        evs[300]["salt"] = evs[7]["salt"]
+        return evs, 0
+    _selftest(c, "Trace_System", t, dup_salt, False, "one salt replaced by an earlier one", sparse=True)
+    drive("c12", ["--tier", "quick", "--seed", c.seed, "--out", work, "--shards", 8])
+    t = traces_in(work, "felt")[1]
+
+    def bump_row(evs):
+        i = _first(evs, lambda e: e.get("ev") == "row")
+        evs = [dict(e) for e in evs[: i + 1]]
+        evs[i]["sum"] = (evs[i]["sum"] + 1) % 1000003
+        return evs, i + 1
+    _selftest(c, "Trace_Felt", t, bump_row, True, "row digest of a field operation off by one")
+    c.cov["rule"] = "binding self-tests: each trace specification must reject a trace with one corrupted field at exactly that event"
+    c.cov["evaluations"] = max(c.cov["evaluations"], len(c.cov.get("binding_selftests", [])))
